@@ -152,8 +152,6 @@ Definition fs_rename (c : cfg) (s : sys) (old0 new0 : str) : sys * outc :=
   | _, _ =>
     let old := path_clean old0 in
     let new := path_clean new0 in
-    if eqb_str old new then (s, OOk) else
-    if has_prefix (trim_suffix [slash] old ++ [slash]) new then (s, OInvalid) else
     let '(p, rt) := get_root_path (db s) in
     let s := set_db s p in
     match rt with
@@ -165,6 +163,8 @@ Definition fs_rename (c : cfg) (s : sys) (old0 new0 : str) : sys * outc :=
                        | x => x end in
       match src with
       | Ok sh =>
+        if eqb_str old new then (s, OOk) else
+        if (h_tf sh =? TypeDir) && has_prefix (trim_suffix [slash] old ++ [slash]) new then (s, OInvalid) else
         match parent_check s new with
         | (s, OOk) =>
           match stat_s s new false with
@@ -232,7 +232,8 @@ Definition decode_flags (c : cfg) (o : oflag) : flags :=
     {| fl_read := (o_acc o =? 0) || (o_acc o =? 2); fl_write := (o_acc o =? 1) || (o_acc o =? 2);
        fl_append := o_append o; fl_trunc := o_trunc o |}.
 
-Record handle := { hd_path : str; hd_link : str; hd_flags : flags; hd_info : hdr }.
+Record handle := { hd_path : str; hd_link : str; hd_flags : flags; hd_info : hdr;
+                   hd_buf : option content (* write buffer, present once the handle entered write mode *) }.
 
 (* STFS.OpenFile (entries reached through a link name are not modelled) *)
 Definition fs_openfile (c : cfg) (s : sys) (name0 : str) (o : oflag) (perm : N) : sys * outc * option handle :=
@@ -244,7 +245,11 @@ Definition fs_openfile (c : cfg) (s : sys) (name0 : str) (o : oflag) (perm : N) 
     let finish (s : sys) (h : hdr) (created : bool) : sys * outc * option handle :=
       if negb created && negb (c_readonly c) && o_create o && o_excl o then (s, OExist, None)
       else if (h_tf h =? TypeDir) && (fl_write fl || fl_append fl || fl_trunc fl) then (s, OIsDir, None)
-      else (s, OOk, Some {| hd_path := h_name h; hd_link := h_link h; hd_flags := fl; hd_info := h |}) in
+      else
+        (* O_TRUNC is applied when opening: the handle enters write mode with an empty buffer *)
+        let buf := if fl_write fl && fl_trunc fl && negb (h_tf h =? TypeDir) && negb (h_size h =? 0)
+                   then Some [] else None in
+        (s, OOk, Some {| hd_path := h_name h; hd_link := h_link h; hd_flags := fl; hd_info := h; hd_buf := buf |}) in
     match stat_s s name false with
     | (s, Ok h) => finish s h false
     | (s, NoRows) =>
@@ -302,6 +307,9 @@ Definition read_path (c : cfg) (s : sys) (path : str) : sys * res content :=
 Definition handle_write_all (c : cfg) (s : sys) (hd : handle) (d : content) : sys * outc * option content :=
   if h_tf (hd_info hd) =? TypeDir then (s, OIsDir, None) else
   if negb (fl_write (hd_flags hd)) then (s, OPerm, None) else
+  match hd_buf hd with
+  | Some b0 => (s, OOk, Some (coverlay b0 (if fl_append (hd_flags hd) then clen b0 else 0) d))
+  | None =>
   let '(s, st) := stat_s s (hd_path hd) false in
   let exists_ := match st with Ok h => negb (h_size h =? 0) | _ => false end in
   match st with
@@ -320,6 +328,7 @@ Definition handle_write_all (c : cfg) (s : sys) (hd : handle) (d : content) : sy
       let pos := if fl_append (hd_flags hd) then clen buf1 else 0 in
       (s, OOk, Some (coverlay buf1 pos d))
     end
+  end
   end.
 
 (* the header Update receives from syncWithoutLocking: tar.FileInfoHeader of fs.FileInfo keeps
@@ -359,7 +368,7 @@ Inductive call :=
 
 Definition write_close (c : cfg) (s : sys) (hd : handle) (d : content) (force : bool) : sys * outc :=
   match d, force with
-  | [], false => handle_close c s hd None
+  | [], false => handle_close c s hd (hd_buf hd)
   | _, _ =>
     match handle_write_all c s hd d with
     | (s, OOk, Some b) => handle_close c s hd (Some b)
@@ -440,7 +449,7 @@ Fixpoint walk (fuel : nat) (c : cfg) (s : sys) (dir : str) : list entry :=
     | (_, Ok hs) =>
       flat_map (fun h =>
         let path := path_join2 dir (path_base (h_name h)) in
-        entry_of c s path h :: (if h_tf h =? TypeDir then walk f c s (h_name h) else [])) hs
+        entry_of c s path h :: (if h_tf h =? TypeDir then walk f c s path else [])) hs
     | _ => []
     end
   end.
